@@ -6,7 +6,7 @@ wt=$1; m=$2; sid=$3
 log=/tmp/mut/confirm_$sid.log
 exec >$log 2>&1
 cd $wt || exit 2
-git checkout -q -- . ; rm -f tests/zz_demo.rs
+git checkout -q -- . ; rm -f tests/zz_demo.rs tests/demo_c*.rs
 git apply $m/patch.diff || { echo "RESULT apply-failed"; exit 1; }
 cp $m/demo.rs tests/zz_demo.rs
 echo "== suite with change"
